@@ -279,6 +279,14 @@ func runC06(env *core.Env) {
 			}
 		}
 	}
+	n++
+	if env.Mine(n) {
+		for _, c := range [][2]string{{"{}.exists($this = 1).not()", "T"}, {"Patient.photo.exists(title.exists())", "F"}, {"Patient.photo.exists(title.exists()) and {}", "F"}, {"Patient.photo.all(title.exists())", "T"}, {"Patient.photo.all(title.exists()).not()", "F"},
+			{"Patient.photo.where(title.exists()).exists() or false", "F"}, {"iif(Patient.photo.exists(true), 'a', 'b') = 'b'", "T"}, {"Patient.photo.exists(true) is Boolean", "T"}, {"Patient.photo.exists(true) = false", "T"}, {"{}.allTrue() and {}.allFalse() and {}.anyTrue().not() and {}.anyFalse().not()", "T"}, {"{}.empty() and {}.exists().not() and ({}.count() = 0)", "T"}} {
+			env.Cover("aggregate-on-empty-input")
+			c06Prog(env, "empty-input-aggregate", c[0], c[1])
+		}
+	}
 	ops := []string{"and", "or", "xor", "implies"}
 	for _, op1 := range ops {
 		for _, op2 := range ops {
